@@ -11,6 +11,10 @@ PROOF_NOTE = ("Trusted: Lean 4.33 kernel; axioms propext/Classical.choice/Quot.s
 
 # id -> (text, note-extra, technique, design_ref)
 CHECKS = {
+ "C01": ("Lean theorems over ALL finite histories of in-memory broker atoms (any interleaving, any cancellation point = atom prefix): per-id conservation (mem_count), exactly-one-place (mem_exactly_one_place / mem_onePlace), per-op clauses (ack_removes, nack_dead_letters, requeue_replaces, reject_origin_partial + refutation witnesses). "
+         "The code-model is compared with the real InMemoryMessageBroker after every call of random well-behaved sessions, and every call kind is cancelled at every event-loop callback index; Lean predicates are evaluated on the implementation's snapshots.",
+         "in-memory broker only so far (Redis/RabbitMQ parts: see DESIGN.md); queue_flush/delete excluded.",
+         "Lean 4 proof (induction over atom histories) + differential correspondence + cancellation-point enumeration", "§5 C01"),
  "C19": ("Lean theorems (all retry numbers, all timestamps/periods, unbounded Int/Nat) about Sched.backoff/nextDefer/computeNext/overdue; "
          "the model functions are compared with the real retry policy, compute_next_execution_time, _prepare_* and the four is_overdue copies under a pinned clock, "
          "and the Lean predicates are evaluated on the implementation's values.",
